@@ -93,6 +93,28 @@ def intersectionsOfObjects (env : Env) (rt : RT) : Bool :=
     | .allOf ts => !(ts.all (objectLikeRT env 8))
     | _ => false) env rt
 
+/-- a type all of whose values are `typeof "object"` (objects, arrays, `null`, the built-in object kinds) -/
+def typeofObjectRT (env : Env) : Nat → RT → Bool
+  | 0, _ => false
+  | n+1, t => match t with
+    | .object _ _ | .disc _ _ _ _ | .array _ | .tuple _ _ | .map _ _ | .set _ | .date | .typed _ => true
+    | .nullish d => d == "null"
+    | .const v => (match v with | .null => true | _ => false)
+    | .allOf ts => ts.all (typeofObjectRT env n)
+    | .anyOf ts => ts.all (typeofObjectRT env n)
+    | .ref name => match env.lookup name with
+      | some t => typeofObjectRT env n t
+      | none => false
+    | .described _ t => typeofObjectRT env n t
+    | _ => false
+
+/-- hypothesis `IntersectionsOfTypeofObject` (C02 face of D22): no member of a run-time intersection has a value that is not
+`typeof "object"` — `AllOfRuntype.validate` rejects every such value outright -/
+def intersectionsOfTypeofObject (env : Env) (rt : RT) : Bool :=
+  !anyInEnv (fun t => match t with
+    | .allOf ts => !(ts.all (typeofObjectRT env 8))
+    | _ => false) env rt
+
 /-- hypothesis `NoAccessorNamedProps` (C03/D33): no declared property is called `size` or `length`, names that
 Map/Set/array/typed-array inputs answer through an accessor so that an object type structurally accepts them -/
 def noAccessorNamedProps (env : Env) (rt : RT) : Bool :=
